@@ -223,11 +223,26 @@ func injectForeignSignatures(nw *Network, stranger *SimKey) {
 func init() {
 	register(&PropDef{
 		ID: "C09", Level: "exploration", Engine: "nodesim+puppet",
-		Rule: "one case = one seeded nodesim history (n=4..7, joins/leaves) in which fewer than a third of the validators are puppets whose (validly signed, non-equivocating) events carry hostile block signatures (replays of other validators' signatures, signatures over the body without state hash or over another block, unknown/future/negative indexes, malformed encodings, duplicates), and in which valid signatures by strangers, removed and not-yet-effective validators are injected into honest nodes' signature pools; after every step every signature recorded on every stored block must verify against the node's own body and belong to a member of the block's round, the offered anchor must carry > n/3 valid distinct validator signatures and never move backwards, and every signature an honest node gossips must be for a block it delivered, over the final body; non-trivial: >=3 blocks and >=5 puppet events",
-		Assumptions: []string{"puppets never equivocate", "membership is judged against the node's own validator set for the block's round (whose correctness is C10)"},
+		Rule:          "one case = one seeded nodesim history (n=4..7, joins/leaves) in which fewer than a third of the validators are puppets whose (validly signed, non-equivocating) events carry hostile block signatures (replays of other validators' signatures, signatures over the body without state hash or over another block, unknown/future/negative indexes, malformed encodings, duplicates), and in which valid signatures by strangers, removed and not-yet-effective validators are injected into honest nodes' signature pools; after every step every signature recorded on every stored block must verify against the node's own body and belong to a member of the block's round, the offered anchor must carry > n/3 valid distinct validator signatures and never move backwards, and every signature an honest node gossips must be for a block it delivered, over the final body; non-trivial: >=3 blocks and >=5 puppet events",
+		Assumptions:   []string{"puppets never equivocate", "membership is judged against the node's own validator set for the block's round (whose correctness is C10)"},
 		MinNontrivial: 8,
-		Cases: func(tier string, seed int64) []CaseSpec { return byzCases(tier, seed+1299709, 40, 500) },
+		Cases: func(tier string, seed int64) []CaseSpec {
+			cs := byzCases(tier, seed+1299709, 40, 500)
+			k := 8
+			if tier == "thorough" {
+				k = 80
+			}
+			for j := 0; j < k; j++ {
+				// a validator whose application sits behind the socket proxy and is
+				// unreachable for a while, twice
+				cs = append(cs, CaseSpec{Kind: "sockapp", P: map[string]int64{"n": int64(1 + j%4), "steps": int64(260 + 40*(j%4))}, S: map[string]string{"shape": "uniform"}})
+			}
+			return cs
+		},
 		Run: func(cs CaseSpec) *CaseResult {
+			if cs.Kind == "sockapp" {
+				return runSockApp(cs)
+			}
 			return runByzHistory(cs, func(nw *Network, ps []*Puppet) []Monitor {
 				for _, p := range ps {
 					p.Sigs = hostileSigPolicy(nw)
@@ -241,8 +256,8 @@ func init() {
 	})
 	register(&PropDef{
 		ID: "C18", Level: "exploration", Engine: "nodesim+puppet / dagcheck",
-		Rule: "two kinds of cases: (a) seeded nodesim histories in which fewer than a third of the validators are puppets claiming arbitrary creation times (min/max int64, negative, zero, random); (b) seeded synthetic DAGs with skewed honest clocks and up to (n-1)/3 lying creators, executed by a real Hashgraph; for every delivered block: timestamp must lie between the two middle values of the famous witnesses' claimed times of its round-received (famous witnesses read from the node's round info, times from the harness's own record) and inside the honest famous witnesses' range; non-trivial: >=3 blocks checked with at least one lying validator in the round's set",
-		Assumptions: []string{"any value between the two middle elements is accepted as 'the median' for an even number of famous witnesses"},
+		Rule:          "two kinds of cases: (a) seeded nodesim histories in which fewer than a third of the validators are puppets claiming arbitrary creation times (min/max int64, negative, zero, random); (b) seeded synthetic DAGs with skewed honest clocks and up to (n-1)/3 lying creators, executed by a real Hashgraph; for every delivered block: timestamp must lie between the two middle values of the famous witnesses' claimed times of its round-received (famous witnesses read from the node's round info, times from the harness's own record) and inside the honest famous witnesses' range; non-trivial: >=3 blocks checked with at least one lying validator in the round's set",
+		Assumptions:   []string{"any value between the two middle elements is accepted as 'the median' for an even number of famous witnesses"},
 		MinNontrivial: 8,
 		Cases: func(tier string, seed int64) []CaseSpec {
 			cs := byzCases(tier, seed+2750159, 24, 300)
@@ -329,5 +344,81 @@ func runC18Dag(cs CaseSpec) *CaseResult {
 		res.digest("c18dag", cs.Seed, cs.Index, checked)
 	}
 	res.Sample = map[string]interface{}{"kind": "synthetic DAG with lying clocks", "n": d.N, "liars": len(d.Liars), "events": len(d.Events), "blocks_checked": checked}
+	return res
+}
+
+// runSockApp: an honest network in which node 0 talks to its application
+// through the real socket proxy pair; the application becomes unreachable for
+// two stretches of steps (connection refused, established connections closed).
+// Whatever the node signs and gossips must be for blocks its application
+// received, over the body with the state hash the application returned.
+func runSockApp(cs CaseSpec) *CaseResult {
+	res := newResult(cs)
+	nw := NewNetwork(cs, res)
+	defer nw.Close()
+	opts := optsFromCase(cs)
+	opts.SuspendLimit = 1000000
+	nw.DefaultOpts = opts
+	nw.SocketApp = map[int]bool{0: true}
+	nw.GenesisNodes(int(cs.I("n", 3)), opts, nil)
+	x := nw.Nodes[0]
+	if x.AppRelay == nil {
+		res.inconclusive("socket proxy pair could not be set up")
+		return res
+	}
+	nw.Mons = []Monitor{NewMonSignatures()}
+	rng := cs.rng("sockapp")
+	steps := int(cs.I("steps", 300))
+	type span struct{ from, to int }
+	spans := []span{}
+	a := steps/8 + rng.Intn(steps/6)
+	spans = append(spans, span{a, a + 30 + rng.Intn(60)})
+	b := spans[0].to + 20 + rng.Intn(40)
+	spans = append(spans, span{b, b + 30 + rng.Intn(60)})
+	down := false
+	commitsAtDown := 0
+	nw.AfterStepHook = func(nw *Network) {
+		want := false
+		for _, sp := range spans {
+			if nw.Step >= sp.from && nw.Step < sp.to {
+				want = true
+			}
+		}
+		if want && !down {
+			x.AppRelay.down()
+			down = true
+			commitsAtDown = x.Node.GetLastBlockIndex() + 1
+			nw.Res.count("app_outages", 1)
+		} else if !want && down {
+			if err := x.AppRelay.up(); err != nil {
+				nw.Res.count("app_relay_could_not_listen_again", 1)
+			}
+			down = false
+			nw.Res.count("blocks_decided_while_app_unreachable", int64(x.Node.GetLastBlockIndex()+1-commitsAtDown))
+		}
+	}
+	sp := specFromCase(cs)
+	sp.SubmitProb = 0.6
+	nw.RunSchedule(sp)
+	if down {
+		x.AppRelay.up()
+		down = false
+	}
+	if !nw.stopped {
+		nw.FairCycles(20)
+	}
+	if !nw.stopped {
+		nw.finish()
+	}
+	res.Evaluations = int64(nw.Step)
+	res.count("steps", int64(nw.Step))
+	res.count("events_recorded", int64(len(nw.Rec.Order)))
+	res.count("histories_with_socket_application", 1)
+	blocks := len(x.App.DeliveredCopy())
+	if res.Counters["sig_own_event_signatures_checked"] > 0 && res.Counters["app_outages"] >= 2 && blocks >= 3 {
+		res.digest("sockapp", cs.Seed, cs.Index, len(nw.Rec.Order), blocks)
+	}
+	res.Sample = map[string]interface{}{"kind": "nodesim history, node 0's application behind the socket proxy with two outages", "n": cs.I("n", 3), "steps": nw.Step,
+		"blocks_delivered_to_node0_app": blocks, "node0_last_block": x.Node.GetLastBlockIndex(), "blocks_decided_while_app_unreachable": res.Counters["blocks_decided_while_app_unreachable"]}
 	return res
 }
